@@ -180,6 +180,8 @@ def transfer_measures(ctx, rule='C02.R1', units=True):
 
 
 def run(ctx):
+    from .configtime import no_writes_through_get as _no_get_writes
+    _no_get_writes(ctx, 'C02.R3')
     from .configtime import no_identity_test_against_literals as _no_is_literal
     _no_is_literal(ctx, 'C02.R1', classes=('Container', 'Unit', 'Substance'))
     from .configtime import no_shared_mutable_defaults as _mutdef, selection_not_changed_in_place as _sel_inplace
